@@ -193,6 +193,7 @@ type Outcome struct {
 
 type Exec struct {
 	rawKeys  bool // key-layout audit: key constructors are executed, not abstracted
+	adapt    map[string]*loopAdapt // loops whose invariants were adapted to the code (adapt.go)
 	prog     *Program
 	unit     *Unit
 	factSrc  map[*Term]string // provenance of labelled assumptions (for "by" hints)
